@@ -342,3 +342,85 @@ def visit_agreement_rule(crate, prop, rule="C12.R2"):
                    (sorted(named_inl - vis_dep), "them" if len(named_inl - vis_dep) > 1 else "it"), file, line)
     r.floor = 30
     return r
+
+
+def totality_rule(crate, prop, rule="C12.R3"):
+    """a field may ask any supported type for its name() or - under #[ts(inline)], or through a container that inlines its
+    argument (`Vec<(Foo, i32)>`) - for its inline(); both must answer.  decl()/decl_concrete()/inline_flattened() may refuse."""
+    r = Result(rule, "name() and inline() of every built-in `impl TS` can return (the body has a return reachable from its entry); only the internal placeholder `Dummy` is exempt")
+    EXEMPT = {"Dummy": "internal stand-in for erased type arguments, never rendered"}
+    bad = {}
+    n = 0
+    for b in crate.bodies:
+        if b.raw.get("impl_trait") != "TS" or b.raw.get("assoc_name") not in ("name", "inline"):
+            continue
+        n += 1
+        self_ty = b.raw.get("impl_self") or "?"
+        reach = b.reachable_from([0])
+        returns = any((not b.is_cleanup(x)) and b.term(x)["k"] == "return" for x in reach)
+        if returns or self_ty in EXEMPT:
+            continue
+        fam = "tuples" if re.match(r"^\(.*\)$", self_ty) else self_ty
+        bad.setdefault((fam, b.raw["assoc_name"]), []).append((b.file(), b.line(), self_ty))
+    r.inst(bodies_examined=n, always_panicking=sorted("%s::%s x%d" % (k[0], k[1], len(v)) for k, v in bad.items()), exempt=sorted(EXEMPT))
+    for (fam, m), lst in sorted(bad.items()):
+        r.fail(prop, "%s-always-panics %s" % (m, fam),
+               "%s() of %s panics unconditionally (%d impl%s): `#[ts(inline)] v: Vec<%s>` derives, compiles, and panics when the declaration is rendered" %
+               (m, fam, len(lst), "s" if len(lst) > 1 else "", "(Foo, i32)" if fam == "tuples" else lst[0][2]),
+               lst[0][0], lst[0][1])
+    r.floor = 1
+    return r
+
+
+def map_key_rule(syn, prop, rule="C12.R4"):
+    """TypeScript admits only string | number | symbol (and literal unions of those) after `key in`; serde_json writes every
+    map key as a string and accepts integers of every width and bool as key types."""
+    r = Result(rule, "the key slot of the map template (`{ [key in K]?: V }`) is never filled with a type that TypeScript rejects there: of the TypeScript names the primitive table assigns to types that serde_json accepts as map keys, `bigint` and `boolean` are not keyable")
+    # primitive table: rust type -> TS literal
+    table = {}
+    for m in syn.item_macros:
+        if m["name"] != "impl_primitives" or not m["file"].startswith("ts-rs/src"):
+            continue
+        cur = []
+        toks = m["tokens"]
+        for t in S.flat(toks):
+            if not isinstance(t, str):
+                continue
+            if t.startswith('"'):
+                for ty in "".join(cur).split(","):
+                    if ty:
+                        table[ty] = S.unquote(t)
+                cur = []
+            elif t == "=>":
+                continue
+            else:
+                cur.append(t)
+    KEY_TYPES = re.compile(r"^(u8|u16|u32|u64|u128|usize|i8|i16|i32|i64|i128|isize|bool|NonZero[UI](8|16|32|64|128|size))$")
+    unkeyable = sorted({(ty, lit) for ty, lit in table.items() if KEY_TYPES.match(ty) and lit not in ("number", "string")})
+    # the map template
+    sites = []
+    for fn in syn.fns:
+        if not re.match(r"^<HashMap<.*asTS>::(name|inline)$", S.squash(fn["qual"])):
+            continue
+        for e in S.events(fn, "macro"):
+            if e["name"] != "format":
+                continue
+            lit = S.unquote(e["tokens"][0]) if e["tokens"] and isinstance(e["tokens"][0], str) else ""
+            if "[key in {}]" in lit:
+                args = S.format_calls([{"d": "(", "ts": e["tokens"]}]) if False else None
+                txt = S.squash(" ".join(t for t in S.flat(e["tokens"][1:]) if isinstance(t, str)))
+                raw = re.match(r"^,?<Kas(crate|\$crate)::TS>::(name|inline)\(\)", txt) is not None
+                sites.append((fn, e, raw))
+    r.inst(primitive_table_entries=len(table), key_types_with_unkeyable_name=["%s => %s" % x for x in unkeyable], map_templates=len(sites))
+    if not sites:
+        r.fail(prop, "anchor-missing map template", "no `[key in {}]` template found in impl TS for HashMap")
+    raw_sites = [s for s in sites if s[2]]
+    if raw_sites and unkeyable:
+        names = sorted({lit for _, lit in unkeyable})
+        fn, e, _ = raw_sites[0]
+        r.fail(prop, "map-key-not-keyable HashMap<K, V, H> %s" % ",".join(names),
+               "the key slot takes K's TypeScript name as it is; for %s that is %s: `HashMap<u64, i32>` is declared `{ [key in bigint]?: number }` and `HashMap<bool, i32>` `{ [key in boolean]?: number }`, neither of which TypeScript accepts (serde_json writes `{\"1\":2}` / `{\"true\":2}`)" %
+               (", ".join(t for t, _ in unkeyable[:6]) + (" .." if len(unkeyable) > 6 else ""), " / ".join(names)),
+               fn["file"], e["line"])
+    r.floor = 1
+    return r
